@@ -124,6 +124,7 @@ pub proof fn lemma_words_val_zero{X}(d: Seq<{I}>, n: nat)
         lemma_words_val_zero{X}(d, m);
         assert forall|j: {I}| j < {I.bits} implies wbit{X}(d[m as int], j as nat) == wbit{X}(0{I}, j as nat) by {
             let b = m * {I.bits} + j;
+            lemma_divmod_at{X}(m as int, j as int);
             assert(b / {I.bits} == m as int && b % {I.bits} == j as int);
             assert(!bit_at{X}(d, b));
             lemma_wbit_zero{X}(j);
